@@ -4,7 +4,10 @@ V = os.path.dirname(os.path.dirname(os.path.abspath(__file__)))
 kf = json.load(open(os.path.join(V, 'known_findings.json')))
 ids = {f['id'] for f in kf['findings']}
 d = os.path.join(V, 'findings.d')
+integrated = set(open(os.path.join(V, 'harness', 'integrated.txt')).read().split())
 for fn in sorted(os.listdir(d)) if os.path.isdir(d) else []:
+    if not fn.endswith('.json') or fn[:-5] not in integrated:
+        continue
     frag = json.load(open(os.path.join(d, fn)))
     for f in frag.get('findings', []):
         if f['id'] in ids:
